@@ -66,4 +66,46 @@ theorem sim_step {c c' : Cfg} {p : PState} {t : Tid} {ch : Choice} {e : Option E
     case c12 => exact case_c12 hs hpc hts
     case cend => exact case_cend hs hpc hts
 
+/-- the callers' conditions hold at every step of the schedule that is taken -/
+def GuardedRun (c : Cfg) : List (Tid × Choice) → Prop
+  | [] => True
+  | (t, ch) :: sch =>
+    match TxProg.step c t ch with
+    | none => GuardedRun c sch
+    | some (c', _) => Guarded c t ∧ GuardedRun c' sch
+
+theorem run_cons_none {c : Cfg} {t : Tid} {ch : Choice} {sch : List (Tid × Choice)} (h : TxProg.step c t ch = none) :
+    TxProg.run c ((t, ch) :: sch) = TxProg.run c sch := by simp [TxProg.run, h]
+
+theorem run_cons_some {c c' : Cfg} {t : Tid} {ch : Choice} {e : Option Ev} {sch : List (Tid × Choice)}
+    (h : TxProg.step c t ch = some (c', e)) :
+    TxProg.run c ((t, ch) :: sch) = ((TxProg.run c' sch).1, e.toList ++ (TxProg.run c' sch).2) := by
+  simp [TxProg.run, h]
+
+/-- trace inclusion from any related pair of states -/
+theorem refines_from {c : Cfg} {p : PState} (hs : Sim c p) (sch : List (Tid × Choice)) (hg : GuardedRun c sch) :
+    ∃ p', runAll p (TxProg.run c sch).2 = some p' ∧ Sim (TxProg.run c sch).1 p' := by
+  induction sch generalizing c p with
+  | nil => exact ⟨p, rfl, hs⟩
+  | cons a sch ih =>
+    obtain ⟨t, ch⟩ := a
+    cases hst : TxProg.step c t ch with
+    | none =>
+      rw [run_cons_none hst]
+      simp only [GuardedRun, hst] at hg
+      exact ih hs hg
+    | some r =>
+      obtain ⟨c', e⟩ := r
+      rw [run_cons_some hst]
+      simp only [GuardedRun, hst] at hg
+      obtain ⟨p1, h1, hs1⟩ := sim_step hs hg.1 hst
+      obtain ⟨p2, h2, hs2⟩ := ih hs1 hg.2
+      refine ⟨p2, ?_, hs2⟩
+      cases e with
+      | none => simp only [optStep] at h1; cases h1; simpa using h2
+      | some ev =>
+        simp only [optStep] at h1
+        simp only [Option.toList, List.cons_append, List.nil_append, runAll_cons, h1, Option.bind_some]
+        exact h2
+
 end NodisVerif.Proofs.TxProg
